@@ -35,6 +35,7 @@ pub mod error {
     }
 }
 
+#[cfg(feature = "attrs")]
 pub mod attributes {
     pub mod stun {
         pub use crate::attrs_model::nonce_cookie;
@@ -42,6 +43,18 @@ pub mod attributes {
             ErrorCodeAttr as ErrorCode, Fingerprint, MessageIntegrity, MessageIntegritySha256, Nonce, PasswordAlgorithm,
             PasswordAlgorithms, Realm, UserHash, UserName,
         };
+    }
+}
+#[cfg(not(feature = "attrs"))]
+pub mod attributes {
+    pub mod stun {
+        #[derive(Debug, Clone)]
+        pub struct UserName;
+        impl UserName {
+            pub fn new<S: AsRef<str>>(_s: S) -> Result<Self, crate::StunError> {
+                Ok(UserName)
+            }
+        }
     }
 }
 
@@ -81,16 +94,25 @@ impl HMACKey {
     }
 }
 
+/// In the `slice` build (feature `attrs` off) a message is just (class, transaction id): a Vec of
+/// attributes inside every event's message makes the client glue queries 20x heavier (drop glue).
 #[derive(Debug)]
 pub struct StunMessage {
     pub class: MessageClass,
     pub tid: TransactionId,
+    #[cfg(feature = "attrs")]
     pub method: MessageMethod,
+    #[cfg(feature = "attrs")]
     pub attrs: Vec<StunAttribute>,
 }
 impl StunMessage {
+    #[cfg(feature = "attrs")]
     pub fn light(class: MessageClass, tid: TransactionId) -> Self {
         StunMessage { class, tid, method: MessageMethod(0), attrs: Vec::new() }
+    }
+    #[cfg(not(feature = "attrs"))]
+    pub fn light(class: MessageClass, tid: TransactionId) -> Self {
+        StunMessage { class, tid }
     }
     pub fn class(&self) -> MessageClass {
         self.class
@@ -132,418 +154,424 @@ impl MessageEncoder {
     }
 }
 
-// =============================================================================================
-// Attribute-level part of the environment model (used by the `agentshim` build: the whole real
-// stun-agent crate compiled against this crate).  Attribute values are small tokens:
-//   * identity of strings (user name, realm, nonce) = a token byte
-//   * a MAC "verifies under key K" = the attribute carries K's id; HMACKey ids are derived from
-//     what the real derivation depends on (short-term: the password; long-term: realm + algorithm)
-//   * get_input_text succeeds or not as the harness chooses
-// Cryptography and byte layouts are the real stun-rs's business (C01-C04, C10).
-// =============================================================================================
-pub const MESSAGE_HEADER_SIZE: usize = 20;
-
-#[derive(Debug)]
-pub struct MessageHeader<'a> {
-    pub bits: u8,
-    pub msg_type: u16,
-    pub msg_length: u16,
-    pub cookie: &'a [u8; 4],
-    pub transaction_id: &'a [u8; 12],
-}
-impl<'a> std::convert::TryFrom<&'a [u8; MESSAGE_HEADER_SIZE]> for MessageHeader<'a> {
-    type Error = StunError;
-    fn try_from(b: &'a [u8; MESSAGE_HEADER_SIZE]) -> Result<Self, StunError> {
-        let t = ((b[0] as u16) << 8) | b[1] as u16;
-        if t >> 14 != 0 || b[4] != 0x21 || b[5] != 0x12 || b[6] != 0xa4 || b[7] != 0x42 {
-            return Err(StunError);
-        }
-        let cookie: &[u8; 4] = (&b[4..8]).try_into().map_err(|_| StunError)?;
-        let transaction_id: &[u8; 12] = (&b[8..20]).try_into().map_err(|_| StunError)?;
-        Ok(MessageHeader { bits: 0, msg_type: t & 0x3fff, msg_length: ((b[2] as u16) << 8) | b[3] as u16, cookie, transaction_id })
-    }
-}
-
-#[derive(Clone, Copy, PartialEq, Eq, Debug, PartialOrd, Ord, Hash)]
-pub struct AttributeType(pub u16);
-impl AttributeType {
-    pub fn as_u16(&self) -> u16 {
-        self.0
-    }
-}
-pub trait StunAttributeType {
-    fn get_type() -> AttributeType
-    where
-        Self: Sized;
-    fn attribute_type(&self) -> AttributeType;
-}
-
-#[derive(Debug, Clone, Copy, PartialEq, Eq)]
-pub enum AlgorithmId {
-    Reserved,
-    MD5,
-    SHA256,
-    Unassigned(u16),
-}
-#[derive(Debug, Clone, Copy, PartialEq, Eq)]
-pub struct Algorithm {
-    pub id: AlgorithmId,
-}
-impl Algorithm {
-    pub fn algorithm(&self) -> AlgorithmId {
-        self.id
-    }
-}
-impl From<AlgorithmId> for Algorithm {
-    fn from(id: AlgorithmId) -> Self {
-        Algorithm { id }
-    }
-}
-impl AsRef<Algorithm> for Algorithm {
-    fn as_ref(&self) -> &Algorithm {
-        self
-    }
-}
-
-#[derive(Debug, Clone, Copy, PartialEq, Eq)]
-pub struct ErrorCode {
-    pub code: u16,
-}
-impl ErrorCode {
-    pub fn error_code(&self) -> u16 {
-        self.code
-    }
-}
-
-const TOK: [&str; 4] = ["t0", "t1", "t2", "t3"];
-fn tok_str(t: u8) -> &'static str {
-    TOK[(t & 3) as usize]
-}
-fn str_tok(s: &str) -> u8 {
-    let b = s.as_bytes();
-    if b.len() == 2 && b[0] == b't' {
-        b[1].wrapping_sub(b'0') & 3
-    } else {
-        0
-    }
-}
-
-impl HMACKey {
-    /// long-term key: depends on realm and password algorithm (user and password are fixed per client)
-    pub fn new_long_term<A, B, C, T>(_username: A, realm: B, _password: C, algorithm: T) -> Result<Self, StunError>
-    where
-        A: AsRef<str>,
-        B: AsRef<str>,
-        C: AsRef<str>,
-        T: AsRef<Algorithm>,
-    {
-        if unsafe { ENV2.key_derivation_fails } {
-            return Err(StunError);
-        }
-        let a = match algorithm.as_ref().algorithm() {
-            AlgorithmId::MD5 => 1,
-            AlgorithmId::SHA256 => 2,
-            _ => return Err(StunError),
-        };
-        Ok(HMACKey { id: 16 + str_tok(realm.as_ref()) * 4 + a })
-    }
-}
-
-/// attribute-level environment choices, set by the harness
-pub struct Env2 {
-    pub input_text_ok: bool,
-    pub key_derivation_fails: bool,
-    pub user_hash_fails: bool,
-}
-pub static mut ENV2: Env2 = Env2 { input_text_ok: true, key_derivation_fails: false, user_hash_fails: false };
-
-pub fn get_input_text<A>(_buffer: &[u8]) -> Option<Vec<u8>>
-where
-    A: StunAttributeType,
-{
-    if unsafe { ENV2.input_text_ok } {
-        Some(Vec::new())
-    } else {
-        None
-    }
-}
-
-pub mod attrs_model {
+#[cfg(feature = "attrs")]
+mod attr_level {
     use super::*;
+    // =============================================================================================
+    // Attribute-level part of the environment model (used by the `agentshim` build: the whole real
+    // stun-agent crate compiled against this crate).  Attribute values are small tokens:
+    //   * identity of strings (user name, realm, nonce) = a token byte
+    //   * a MAC "verifies under key K" = the attribute carries K's id; HMACKey ids are derived from
+    //     what the real derivation depends on (short-term: the password; long-term: realm + algorithm)
+    //   * get_input_text succeeds or not as the harness chooses
+    // Cryptography and byte layouts are the real stun-rs's business (C01-C04, C10).
+    // =============================================================================================
+    pub const MESSAGE_HEADER_SIZE: usize = 20;
 
-    macro_rules! typed {
-        ($t:ty, $code:expr, $variant:ident) => {
-            impl StunAttributeType for $t {
-                fn get_type() -> AttributeType {
-                    AttributeType($code)
-                }
-                fn attribute_type(&self) -> AttributeType {
-                    AttributeType($code)
-                }
+    #[derive(Debug)]
+    pub struct MessageHeader<'a> {
+        pub bits: u8,
+        pub msg_type: u16,
+        pub msg_length: u16,
+        pub cookie: &'a [u8; 4],
+        pub transaction_id: &'a [u8; 12],
+    }
+    impl<'a> std::convert::TryFrom<&'a [u8; MESSAGE_HEADER_SIZE]> for MessageHeader<'a> {
+        type Error = StunError;
+        fn try_from(b: &'a [u8; MESSAGE_HEADER_SIZE]) -> Result<Self, StunError> {
+            let t = ((b[0] as u16) << 8) | b[1] as u16;
+            if t >> 14 != 0 || b[4] != 0x21 || b[5] != 0x12 || b[6] != 0xa4 || b[7] != 0x42 {
+                return Err(StunError);
             }
-            impl From<$t> for StunAttribute {
-                fn from(v: $t) -> Self {
-                    StunAttribute::$variant(v)
-                }
-            }
-        };
+            let cookie: &[u8; 4] = (&b[4..8]).try_into().map_err(|_| StunError)?;
+            let transaction_id: &[u8; 12] = (&b[8..20]).try_into().map_err(|_| StunError)?;
+            Ok(MessageHeader { bits: 0, msg_type: t & 0x3fff, msg_length: ((b[2] as u16) << 8) | b[3] as u16, cookie, transaction_id })
+        }
+    }
+
+    #[derive(Clone, Copy, PartialEq, Eq, Debug, PartialOrd, Ord, Hash)]
+    pub struct AttributeType(pub u16);
+    impl AttributeType {
+        pub fn as_u16(&self) -> u16 {
+            self.0
+        }
+    }
+    pub trait StunAttributeType {
+        fn get_type() -> AttributeType
+        where
+            Self: Sized;
+        fn attribute_type(&self) -> AttributeType;
     }
 
     #[derive(Debug, Clone, Copy, PartialEq, Eq)]
-    pub struct UserName(pub u8);
-    impl UserName {
-        pub fn new<S: AsRef<str>>(_s: S) -> Result<Self, StunError> {
-            Ok(UserName(1))
-        }
-    }
-    impl AsRef<str> for UserName {
-        fn as_ref(&self) -> &str {
-            tok_str(self.0)
-        }
+    pub enum AlgorithmId {
+        Reserved,
+        MD5,
+        SHA256,
+        Unassigned(u16),
     }
     #[derive(Debug, Clone, Copy, PartialEq, Eq)]
-    pub struct Realm(pub u8);
-    impl AsRef<str> for Realm {
-        fn as_ref(&self) -> &str {
-            tok_str(self.0)
-        }
+    pub struct Algorithm {
+        pub id: AlgorithmId,
     }
-    #[derive(Debug, Clone, Copy, PartialEq, Eq)]
-    pub struct Nonce {
-        pub tok: u8,
-        pub cookie: bool,
-        pub flags_ok: bool,
-        pub anonymity: bool,
-        pub pwd_algs: bool,
-    }
-    pub mod nonce_cookie {
-        #[derive(Debug, Clone, Copy, PartialEq, Eq)]
-        pub enum StunSecurityFeatures {
-            PasswordAlgorithms,
-            UserNameAnonymity,
-        }
-        #[derive(Debug, Clone, Copy)]
-        pub struct Flags {
-            pub pa: bool,
-            pub ua: bool,
-        }
-        impl Flags {
-            pub fn contains(&self, f: StunSecurityFeatures) -> bool {
-                match f {
-                    StunSecurityFeatures::PasswordAlgorithms => self.pa,
-                    StunSecurityFeatures::UserNameAnonymity => self.ua,
-                }
-            }
-        }
-    }
-    impl Nonce {
-        pub fn is_nonce_cookie(&self) -> bool {
-            self.cookie
-        }
-        pub fn security_features(&self) -> Result<nonce_cookie::Flags, StunError> {
-            if self.cookie && self.flags_ok {
-                Ok(nonce_cookie::Flags { pa: self.pwd_algs, ua: self.anonymity })
-            } else {
-                Err(StunError)
-            }
-        }
-    }
-    #[derive(Debug, Clone, Copy, PartialEq, Eq)]
-    pub struct UserHash(pub u8);
-    impl UserHash {
-        pub fn new<A: AsRef<str>, B: AsRef<str>>(_name: A, realm: B) -> Result<Self, StunError> {
-            if unsafe { ENV2.user_hash_fails } {
-                Err(StunError)
-            } else {
-                Ok(UserHash(str_tok(realm.as_ref())))
-            }
-        }
-    }
-    #[derive(Debug, Clone, Copy, PartialEq, Eq)]
-    pub struct PasswordAlgorithm(pub Algorithm);
-    impl PasswordAlgorithm {
+    impl Algorithm {
         pub fn algorithm(&self) -> AlgorithmId {
-            self.0.id
+            self.id
         }
     }
-    impl AsRef<Algorithm> for PasswordAlgorithm {
+    impl From<AlgorithmId> for Algorithm {
+        fn from(id: AlgorithmId) -> Self {
+            Algorithm { id }
+        }
+    }
+    impl AsRef<Algorithm> for Algorithm {
         fn as_ref(&self) -> &Algorithm {
-            &self.0
+            self
         }
     }
-    /// a list of up to two algorithms plus an identity token (so that "same content" is observable)
+
     #[derive(Debug, Clone, Copy, PartialEq, Eq)]
-    pub struct PasswordAlgorithms {
-        pub tok: u8,
-        pub n: u8,
-        pub list: [PasswordAlgorithm; 2],
-    }
-    impl PasswordAlgorithms {
-        pub fn iter(&self) -> impl Iterator<Item = &PasswordAlgorithm> {
-            self.list[..(self.n.min(2)) as usize].iter()
-        }
-    }
-    #[derive(Debug, Clone, Copy, PartialEq, Eq)]
-    pub enum MessageIntegrity {
-        Encodable(HMACKey),
-        /// id of the key under which the received MAC verifies (0 = none)
-        Decodable(u8),
-    }
-    impl MessageIntegrity {
-        pub fn new(key: HMACKey) -> Self {
-            MessageIntegrity::Encodable(key)
-        }
-        pub fn validate(&self, _input: &[u8], key: &HMACKey) -> bool {
-            match self {
-                MessageIntegrity::Decodable(k) => *k == key.id && *k != 0,
-                _ => false,
-            }
-        }
-    }
-    #[derive(Debug, Clone, Copy, PartialEq, Eq)]
-    pub enum MessageIntegritySha256 {
-        Encodable(HMACKey),
-        Decodable(u8),
-    }
-    impl MessageIntegritySha256 {
-        pub fn new(key: HMACKey) -> Self {
-            MessageIntegritySha256::Encodable(key)
-        }
-        pub fn validate(&self, _input: &[u8], key: &HMACKey) -> bool {
-            match self {
-                MessageIntegritySha256::Decodable(k) => *k == key.id && *k != 0,
-                _ => false,
-            }
-        }
-    }
-    #[derive(Debug, Clone, Copy, PartialEq, Eq)]
-    pub enum Fingerprint {
-        Encodable,
-        Decodable(bool),
-    }
-    impl Default for Fingerprint {
-        fn default() -> Self {
-            Fingerprint::Encodable
-        }
-    }
-    impl Fingerprint {
-        pub fn validate(&self, _input: &[u8]) -> bool {
-            matches!(self, Fingerprint::Decodable(true))
-        }
-    }
-    #[derive(Debug, Clone, Copy, PartialEq, Eq)]
-    pub struct ErrorCodeAttr(pub ErrorCode);
-    impl ErrorCodeAttr {
-        pub fn error_code(&self) -> &ErrorCode {
-            &self.0
-        }
-    }
-    /// ordinary attributes: a type code (outside the modelled kinds) and a value token
-    #[derive(Debug, Clone, Copy, PartialEq, Eq)]
-    pub struct Other {
+    pub struct ErrorCode {
         pub code: u16,
-        pub val: u8,
+    }
+    impl ErrorCode {
+        pub fn error_code(&self) -> u16 {
+            self.code
+        }
     }
 
-    #[derive(Debug, Clone, Copy, PartialEq, Eq)]
-    pub enum StunAttribute {
-        UserName(UserName),
-        Realm(Realm),
-        Nonce(Nonce),
-        UserHash(UserHash),
-        PasswordAlgorithm(PasswordAlgorithm),
-        PasswordAlgorithms(PasswordAlgorithms),
-        MessageIntegrity(MessageIntegrity),
-        MessageIntegritySha256(MessageIntegritySha256),
-        Fingerprint(Fingerprint),
-        ErrorCode(ErrorCodeAttr),
-        Other(Other),
+    const TOK: [&str; 4] = ["t0", "t1", "t2", "t3"];
+    fn tok_str(t: u8) -> &'static str {
+        TOK[(t & 3) as usize]
     }
-    typed!(UserName, 0x0006, UserName);
-    typed!(Realm, 0x0014, Realm);
-    typed!(Nonce, 0x0015, Nonce);
-    typed!(UserHash, 0x001e, UserHash);
-    typed!(PasswordAlgorithm, 0x001d, PasswordAlgorithm);
-    typed!(PasswordAlgorithms, 0x8002, PasswordAlgorithms);
-    typed!(MessageIntegrity, 0x0008, MessageIntegrity);
-    typed!(MessageIntegritySha256, 0x001c, MessageIntegritySha256);
-    typed!(Fingerprint, 0x8028, Fingerprint);
-    typed!(ErrorCodeAttr, 0x0009, ErrorCode);
-    impl From<Other> for StunAttribute {
-        fn from(v: Other) -> Self {
-            StunAttribute::Other(v)
+    fn str_tok(s: &str) -> u8 {
+        let b = s.as_bytes();
+        if b.len() == 2 && b[0] == b't' {
+            b[1].wrapping_sub(b'0') & 3
+        } else {
+            0
         }
     }
-    impl StunAttribute {
-        pub fn attribute_type(&self) -> AttributeType {
-            match self {
-                StunAttribute::UserName(a) => a.attribute_type(),
-                StunAttribute::Realm(a) => a.attribute_type(),
-                StunAttribute::Nonce(a) => a.attribute_type(),
-                StunAttribute::UserHash(a) => a.attribute_type(),
-                StunAttribute::PasswordAlgorithm(a) => a.attribute_type(),
-                StunAttribute::PasswordAlgorithms(a) => a.attribute_type(),
-                StunAttribute::MessageIntegrity(a) => a.attribute_type(),
-                StunAttribute::MessageIntegritySha256(a) => a.attribute_type(),
-                StunAttribute::Fingerprint(a) => a.attribute_type(),
-                StunAttribute::ErrorCode(a) => a.attribute_type(),
-                StunAttribute::Other(o) => AttributeType(o.code),
-            }
-        }
-        pub fn is_message_integrity(&self) -> bool {
-            matches!(self, StunAttribute::MessageIntegrity(_))
-        }
-        pub fn is_message_integrity_sha256(&self) -> bool {
-            matches!(self, StunAttribute::MessageIntegritySha256(_))
-        }
-        pub fn is_fingerprint(&self) -> bool {
-            matches!(self, StunAttribute::Fingerprint(_))
-        }
-        pub fn as_fingerprint(&self) -> Result<&Fingerprint, StunError> {
-            match self {
-                StunAttribute::Fingerprint(f) => Ok(f),
-                _ => Err(StunError),
-            }
-        }
-    }
-}
-pub use attrs_model::StunAttribute;
 
-impl StunMessage {
-    pub fn attributes(&self) -> &[StunAttribute] {
-        &self.attrs
+    impl HMACKey {
+        /// long-term key: depends on realm and password algorithm (user and password are fixed per client)
+        pub fn new_long_term<A, B, C, T>(_username: A, realm: B, _password: C, algorithm: T) -> Result<Self, StunError>
+        where
+            A: AsRef<str>,
+            B: AsRef<str>,
+            C: AsRef<str>,
+            T: AsRef<Algorithm>,
+        {
+            if unsafe { ENV2.key_derivation_fails } {
+                return Err(StunError);
+            }
+            let a = match algorithm.as_ref().algorithm() {
+                AlgorithmId::MD5 => 1,
+                AlgorithmId::SHA256 => 2,
+                _ => return Err(StunError),
+            };
+            Ok(HMACKey { id: 16 + str_tok(realm.as_ref()) * 4 + a })
+        }
     }
-    pub fn method(&self) -> MessageMethod {
-        self.method
+
+    /// attribute-level environment choices, set by the harness
+    pub struct Env2 {
+        pub input_text_ok: bool,
+        pub key_derivation_fails: bool,
+        pub user_hash_fails: bool,
     }
-    pub fn get<A>(&self) -> Option<&StunAttribute>
+    pub static mut ENV2: Env2 = Env2 { input_text_ok: true, key_derivation_fails: false, user_hash_fails: false };
+
+    pub fn get_input_text<A>(_buffer: &[u8]) -> Option<Vec<u8>>
     where
         A: StunAttributeType,
     {
-        self.attrs.iter().find(|&a| a.attribute_type() == A::get_type())
+        if unsafe { ENV2.input_text_ok } {
+            Some(Vec::new())
+        } else {
+            None
+        }
     }
-}
 
-#[derive(Debug)]
-pub struct StunMessageBuilder {
-    method: MessageMethod,
-    class: MessageClass,
-    tid: Option<TransactionId>,
-    attrs: Vec<StunAttribute>,
+    pub mod attrs_model {
+        use super::*;
+
+        macro_rules! typed {
+            ($t:ty, $code:expr, $variant:ident) => {
+                impl StunAttributeType for $t {
+                    fn get_type() -> AttributeType {
+                        AttributeType($code)
+                    }
+                    fn attribute_type(&self) -> AttributeType {
+                        AttributeType($code)
+                    }
+                }
+                impl From<$t> for StunAttribute {
+                    fn from(v: $t) -> Self {
+                        StunAttribute::$variant(v)
+                    }
+                }
+            };
+        }
+
+        #[derive(Debug, Clone, Copy, PartialEq, Eq)]
+        pub struct UserName(pub u8);
+        impl UserName {
+            pub fn new<S: AsRef<str>>(_s: S) -> Result<Self, StunError> {
+                Ok(UserName(1))
+            }
+        }
+        impl AsRef<str> for UserName {
+            fn as_ref(&self) -> &str {
+                tok_str(self.0)
+            }
+        }
+        #[derive(Debug, Clone, Copy, PartialEq, Eq)]
+        pub struct Realm(pub u8);
+        impl AsRef<str> for Realm {
+            fn as_ref(&self) -> &str {
+                tok_str(self.0)
+            }
+        }
+        #[derive(Debug, Clone, Copy, PartialEq, Eq)]
+        pub struct Nonce {
+            pub tok: u8,
+            pub cookie: bool,
+            pub flags_ok: bool,
+            pub anonymity: bool,
+            pub pwd_algs: bool,
+        }
+        pub mod nonce_cookie {
+            #[derive(Debug, Clone, Copy, PartialEq, Eq)]
+            pub enum StunSecurityFeatures {
+                PasswordAlgorithms,
+                UserNameAnonymity,
+            }
+            #[derive(Debug, Clone, Copy)]
+            pub struct Flags {
+                pub pa: bool,
+                pub ua: bool,
+            }
+            impl Flags {
+                pub fn contains(&self, f: StunSecurityFeatures) -> bool {
+                    match f {
+                        StunSecurityFeatures::PasswordAlgorithms => self.pa,
+                        StunSecurityFeatures::UserNameAnonymity => self.ua,
+                    }
+                }
+            }
+        }
+        impl Nonce {
+            pub fn is_nonce_cookie(&self) -> bool {
+                self.cookie
+            }
+            pub fn security_features(&self) -> Result<nonce_cookie::Flags, StunError> {
+                if self.cookie && self.flags_ok {
+                    Ok(nonce_cookie::Flags { pa: self.pwd_algs, ua: self.anonymity })
+                } else {
+                    Err(StunError)
+                }
+            }
+        }
+        #[derive(Debug, Clone, Copy, PartialEq, Eq)]
+        pub struct UserHash(pub u8);
+        impl UserHash {
+            pub fn new<A: AsRef<str>, B: AsRef<str>>(_name: A, realm: B) -> Result<Self, StunError> {
+                if unsafe { ENV2.user_hash_fails } {
+                    Err(StunError)
+                } else {
+                    Ok(UserHash(str_tok(realm.as_ref())))
+                }
+            }
+        }
+        #[derive(Debug, Clone, Copy, PartialEq, Eq)]
+        pub struct PasswordAlgorithm(pub Algorithm);
+        impl PasswordAlgorithm {
+            pub fn algorithm(&self) -> AlgorithmId {
+                self.0.id
+            }
+        }
+        impl AsRef<Algorithm> for PasswordAlgorithm {
+            fn as_ref(&self) -> &Algorithm {
+                &self.0
+            }
+        }
+        /// a list of up to two algorithms plus an identity token (so that "same content" is observable)
+        #[derive(Debug, Clone, Copy, PartialEq, Eq)]
+        pub struct PasswordAlgorithms {
+            pub tok: u8,
+            pub n: u8,
+            pub list: [PasswordAlgorithm; 2],
+        }
+        impl PasswordAlgorithms {
+            pub fn iter(&self) -> impl Iterator<Item = &PasswordAlgorithm> {
+                self.list[..(self.n.min(2)) as usize].iter()
+            }
+        }
+        #[derive(Debug, Clone, Copy, PartialEq, Eq)]
+        pub enum MessageIntegrity {
+            Encodable(HMACKey),
+            /// id of the key under which the received MAC verifies (0 = none)
+            Decodable(u8),
+        }
+        impl MessageIntegrity {
+            pub fn new(key: HMACKey) -> Self {
+                MessageIntegrity::Encodable(key)
+            }
+            pub fn validate(&self, _input: &[u8], key: &HMACKey) -> bool {
+                match self {
+                    MessageIntegrity::Decodable(k) => *k == key.id && *k != 0,
+                    _ => false,
+                }
+            }
+        }
+        #[derive(Debug, Clone, Copy, PartialEq, Eq)]
+        pub enum MessageIntegritySha256 {
+            Encodable(HMACKey),
+            Decodable(u8),
+        }
+        impl MessageIntegritySha256 {
+            pub fn new(key: HMACKey) -> Self {
+                MessageIntegritySha256::Encodable(key)
+            }
+            pub fn validate(&self, _input: &[u8], key: &HMACKey) -> bool {
+                match self {
+                    MessageIntegritySha256::Decodable(k) => *k == key.id && *k != 0,
+                    _ => false,
+                }
+            }
+        }
+        #[derive(Debug, Clone, Copy, PartialEq, Eq)]
+        pub enum Fingerprint {
+            Encodable,
+            Decodable(bool),
+        }
+        impl Default for Fingerprint {
+            fn default() -> Self {
+                Fingerprint::Encodable
+            }
+        }
+        impl Fingerprint {
+            pub fn validate(&self, _input: &[u8]) -> bool {
+                matches!(self, Fingerprint::Decodable(true))
+            }
+        }
+        #[derive(Debug, Clone, Copy, PartialEq, Eq)]
+        pub struct ErrorCodeAttr(pub ErrorCode);
+        impl ErrorCodeAttr {
+            pub fn error_code(&self) -> &ErrorCode {
+                &self.0
+            }
+        }
+        /// ordinary attributes: a type code (outside the modelled kinds) and a value token
+        #[derive(Debug, Clone, Copy, PartialEq, Eq)]
+        pub struct Other {
+            pub code: u16,
+            pub val: u8,
+        }
+
+        #[derive(Debug, Clone, Copy, PartialEq, Eq)]
+        pub enum StunAttribute {
+            UserName(UserName),
+            Realm(Realm),
+            Nonce(Nonce),
+            UserHash(UserHash),
+            PasswordAlgorithm(PasswordAlgorithm),
+            PasswordAlgorithms(PasswordAlgorithms),
+            MessageIntegrity(MessageIntegrity),
+            MessageIntegritySha256(MessageIntegritySha256),
+            Fingerprint(Fingerprint),
+            ErrorCode(ErrorCodeAttr),
+            Other(Other),
+        }
+        typed!(UserName, 0x0006, UserName);
+        typed!(Realm, 0x0014, Realm);
+        typed!(Nonce, 0x0015, Nonce);
+        typed!(UserHash, 0x001e, UserHash);
+        typed!(PasswordAlgorithm, 0x001d, PasswordAlgorithm);
+        typed!(PasswordAlgorithms, 0x8002, PasswordAlgorithms);
+        typed!(MessageIntegrity, 0x0008, MessageIntegrity);
+        typed!(MessageIntegritySha256, 0x001c, MessageIntegritySha256);
+        typed!(Fingerprint, 0x8028, Fingerprint);
+        typed!(ErrorCodeAttr, 0x0009, ErrorCode);
+        impl From<Other> for StunAttribute {
+            fn from(v: Other) -> Self {
+                StunAttribute::Other(v)
+            }
+        }
+        impl StunAttribute {
+            pub fn attribute_type(&self) -> AttributeType {
+                match self {
+                    StunAttribute::UserName(a) => a.attribute_type(),
+                    StunAttribute::Realm(a) => a.attribute_type(),
+                    StunAttribute::Nonce(a) => a.attribute_type(),
+                    StunAttribute::UserHash(a) => a.attribute_type(),
+                    StunAttribute::PasswordAlgorithm(a) => a.attribute_type(),
+                    StunAttribute::PasswordAlgorithms(a) => a.attribute_type(),
+                    StunAttribute::MessageIntegrity(a) => a.attribute_type(),
+                    StunAttribute::MessageIntegritySha256(a) => a.attribute_type(),
+                    StunAttribute::Fingerprint(a) => a.attribute_type(),
+                    StunAttribute::ErrorCode(a) => a.attribute_type(),
+                    StunAttribute::Other(o) => AttributeType(o.code),
+                }
+            }
+            pub fn is_message_integrity(&self) -> bool {
+                matches!(self, StunAttribute::MessageIntegrity(_))
+            }
+            pub fn is_message_integrity_sha256(&self) -> bool {
+                matches!(self, StunAttribute::MessageIntegritySha256(_))
+            }
+            pub fn is_fingerprint(&self) -> bool {
+                matches!(self, StunAttribute::Fingerprint(_))
+            }
+            pub fn as_fingerprint(&self) -> Result<&Fingerprint, StunError> {
+                match self {
+                    StunAttribute::Fingerprint(f) => Ok(f),
+                    _ => Err(StunError),
+                }
+            }
+        }
+    }
+    pub use attrs_model::StunAttribute;
+
+    impl StunMessage {
+        pub fn attributes(&self) -> &[StunAttribute] {
+            &self.attrs
+        }
+        pub fn method(&self) -> MessageMethod {
+            self.method
+        }
+        pub fn get<A>(&self) -> Option<&StunAttribute>
+        where
+            A: StunAttributeType,
+        {
+            self.attrs.iter().find(|&a| a.attribute_type() == A::get_type())
+        }
+    }
+
+    #[derive(Debug)]
+    pub struct StunMessageBuilder {
+        method: MessageMethod,
+        class: MessageClass,
+        tid: Option<TransactionId>,
+        attrs: Vec<StunAttribute>,
+    }
+    impl StunMessageBuilder {
+        pub fn new(method: MessageMethod, class: MessageClass) -> Self {
+            StunMessageBuilder { method, class, tid: None, attrs: Vec::new() }
+        }
+        pub fn with_transaction_id(mut self, t: TransactionId) -> Self {
+            self.tid = Some(t);
+            self
+        }
+        pub fn with_attribute<T: Into<StunAttribute>>(mut self, a: T) -> Self {
+            self.attrs.push(a.into());
+            self
+        }
+        pub fn build(self) -> StunMessage {
+            StunMessage { class: self.class, tid: self.tid.unwrap_or_default(), method: self.method, attrs: self.attrs }
+        }
+    }
 }
-impl StunMessageBuilder {
-    pub fn new(method: MessageMethod, class: MessageClass) -> Self {
-        StunMessageBuilder { method, class, tid: None, attrs: Vec::new() }
-    }
-    pub fn with_transaction_id(mut self, t: TransactionId) -> Self {
-        self.tid = Some(t);
-        self
-    }
-    pub fn with_attribute<T: Into<StunAttribute>>(mut self, a: T) -> Self {
-        self.attrs.push(a.into());
-        self
-    }
-    pub fn build(self) -> StunMessage {
-        StunMessage { class: self.class, tid: self.tid.unwrap_or_default(), method: self.method, attrs: self.attrs }
-    }
-}
+#[cfg(feature = "attrs")]
+pub use attr_level::*;
